@@ -33,6 +33,26 @@ META = {
 n_b, n_o, n_t = Poly.sym("n_b"), Poly.sym("n_o"), Poly.sym("n_t")
 
 
+def term_ops_of(v, acc=None, depth=0):
+    """operators of all Terms inside a value (bounded)"""
+    acc = acc if acc is not None else []
+    if depth > 14:
+        return acc
+    if isinstance(v, Term):
+        acc.append(v.op)
+        for a in list(v.args) + list(v.kw.values()):
+            term_ops_of(a, acc, depth + 1)
+    elif isinstance(v, TupleV):
+        for a in v.items:
+            term_ops_of(a, acc, depth + 1)
+    elif isinstance(v, Grid):
+        term_ops_of(v.elem, acc, depth + 1)
+    elif isinstance(v, Num):
+        for a in v.p.all_atoms_deep():
+            pass
+    return acc
+
+
 def run(ctx, repo, tier):
     hooks = GeoHooks(repo, n_b, n_o, n_t, bounds={"n_b": 4, "n_o": 4, "n_t": 2}, b_alg="cube4D", o_alg="ico")
     interp = Interp(repo, hooks, max_depth=20)
@@ -164,8 +184,14 @@ def run(ctx, repo, tier):
             ctx.ok("LAYOUT", f"C09.{helper}.subset", f"{helper}(I)[k] = I[k] {digit} n_b for every index subset I", hw, derived=vstr(res)[:150])
         else:
             r_ = contains_top(res)
-            (ctx.inconclusive if r_ else ctx.violate)("LAYOUT", f"C09.{helper}.subset", f"{helper} does not return {text}", hw,
-                                                      "repeated_natural_num[full_grid_indices]", witness=r_ or vstr(res)[:300])
+            lossy_ = [o_ for o_ in term_ops_of(res) if o_ in ("setop", "unique", "sort")]
+            if lossy_ and not r_:
+                ctx.violate("LAYOUT", f"C09.{helper}.subset", f"{helper} passes the requested indices through a set / sort operation: the answer is in "
+                            "ascending order without repeats, not entry k for request k (a per-frame assignment, a permuted or repeated "
+                            f"selection gets the wrong {text})", hw, "repeated_natural_num[full_grid_indices]", witness=vstr(res)[:300])
+            else:
+                (ctx.inconclusive if r_ else ctx.violate)("LAYOUT", f"C09.{helper}.subset", f"{helper} does not return {text}", hw,
+                                                          "repeated_natural_num[full_grid_indices]", witness=r_ or vstr(res)[:300])
         # default: all rows
         res = interp.call_value(interp.getattr(fg, helper), [], {}, None, None)
         ok = isinstance(res, Grid) and res.ndim == 1 and res.dim_len(0) == N and isinstance(res.elem, Num) and \
@@ -290,6 +316,27 @@ def run(ctx, repo, tier):
                 ctx.ok("LAYOUT", "C09.decompose.o.columns", "directions are the normalised columns [0,3)", dw, src(Xe)[:120])
             elif is_norm and cs_o is not None:
                 ctx.violate("LAYOUT", "C09.decompose.o.columns", "directions are not read from columns [0,3)", dw, src(Xe)[:120], witness=f"columns {cs_o}")
+            elif isinstance(Xe, ast.BinOp) and isinstance(Xe.op, ast.Div) and col_slice(Xe.left) == (0, 3):
+                # hand-written normalisation: columns [0,3) divided by their own row norms
+                dv = expand(Xe.right)
+                while isinstance(dv, ast.Subscript) or (isinstance(dv, ast.Call) and isinstance(dv.func, ast.Attribute) and dv.func.attr == "reshape"):
+                    dv = expand(dv.value if isinstance(dv, ast.Subscript) else dv.func.value)
+                rounded = False
+                while is_np(dv, "round") or is_np(dv, "around"):
+                    rounded = True
+                    dv = expand(dv.args[0])
+                    while isinstance(dv, ast.Subscript):
+                        dv = expand(dv.value)
+                if is_np(dv, "linalg.norm") and dv.args and col_slice(dv.args[0]) == (0, 3):
+                    if rounded:
+                        ctx.violate("LAYOUT", "C09.decompose.o.columns", "directions are the position columns divided by ROUNDED norms: the quotient "
+                                    "is not a unit vector, the same direction recovered from two shells differs around the 8th decimal and "
+                                    "survives the de-duplication, so the direction grid comes back with extra rows (every cell index after the "
+                                    "first duplicate shifts)", dw, src(Xe)[:160], witness="divisor passes through np.round before the division")
+                    else:
+                        ctx.ok("LAYOUT", "C09.decompose.o.columns", "directions are columns [0,3) divided by their own row norms", dw, src(Xe)[:120])
+                else:
+                    ctx.inconclusive("LAYOUT", "C09.decompose.o.columns", "divisor of the hand-written normalisation not recognised", dw, witness=src(Xe)[:200])
             elif col_slice(Xe) is not None:
                 ctx.violate("LAYOUT", "C09.decompose.o.columns", "directions are taken from the position columns without normalisation (they "
                             "carry the radius)", dw, src(Xe)[:120], witness=f"columns {col_slice(Xe)}, not normalised")
